@@ -112,7 +112,8 @@ def run(ck, P):
     # ------------------------------------------------------------------ AST level: counter protocol shape, NULL tolerance, allocator
     ck.rule("C10.4-WHO-WRITES-REFS", "R-WHO-WRITES: mem_header_t.refs is set to 1 in m_mem_new, ++ only in m_mem_ref, -- only in m_mem_unref; "
             "destructor call and free are control-dependent on the decremented counter being 0", floor=3)
-    want = {"m_mem_new": ("=", 1), "m_mem_ref": ("++", None), "m_mem_unref": ("--", None)}
+    # (m_mem_unrefp is the second release entry point: it may hand over to m_mem_unref or release in place, under the same rules)
+    want = {"m_mem_new": ("=", 1), "m_mem_ref": ("++", None), "m_mem_unref": ("--", None), "m_mem_unrefp": ("--", None)}
     seen = set()
     for ev in P.writes_to_field("mem_header_t", "refs"):
         f = ev.fn
@@ -121,12 +122,12 @@ def run(ck, P):
         ok = w is not None and op == w[0] and (w[1] is None or cval(ev.rhs) == w[1])
         seen.add(f.name)
         ck.ob("C10.4-WHO-WRITES-REFS", f.site("refs" + op), ok, "'%s' at line %d" % (S(ev.e), ev.line), nontrivial=False)
-    ck.need(seen == set(want), "writers of refs changed: %s" % sorted(seen))
-    un = P.fn("m_mem_unref", U)
-    for ev in list(rules.dtor_calls(un)) + [e for e in un.calls() if e.callee is None and S(e.e["fn"]).endswith("_free")]:
-        facts = X.facts(un, ev)
-        ok = any(a.startswith("--") and a.endswith("->refs") and p is False for (a, p) in facts)
-        ck.ob("C10.4-WHO-WRITES-REFS", un.site("%s under --refs==0" % S(ev.e["fn"])), ok, "line %d under %s" % (ev.line, fmt_facts(facts)))
+    ck.need({"m_mem_new", "m_mem_ref", "m_mem_unref"} <= seen, "writers of refs changed: %s" % sorted(seen))
+    for un in [P.fn(n_, U) for n_ in ("m_mem_unref", "m_mem_unrefp") if n_ in seen]:
+        for ev in list(rules.dtor_calls(un)) + [e for e in un.calls() if e.callee is None and S(e.e["fn"]).endswith("_free")]:
+            facts = X.facts(un, ev)
+            ok = any(a.startswith("--") and a.endswith("->refs") and p is False for (a, p) in facts)
+            ck.ob("C10.4-WHO-WRITES-REFS", un.site("%s under --refs==0" % S(ev.e["fn"])), ok, "line %d under %s" % (ev.line, fmt_facts(facts)))
 
     # the size is reported for every live pointer, whatever else the header holds (e.g. while the destructor runs with refs == 0)
     ms = P.fn("m_mem_size", U)
@@ -181,6 +182,18 @@ def run(ck, P):
         ok = bool(uses) and all(has(X.facts(f, ev), arg) for ev in uses)
         ck.ob("C10.5-NULL-OK", f.site("NULL tolerated"), ok, "%d use(s) of '%s' all under a non-NULL test: %s" % (len(uses), arg, ok))
 
+    # the header of a block is computed only from a pointer known to be non-NULL (whatever expression names the block)
+    for ev in P.calls_to("get_header"):
+        f = ev.fn
+        if f.unit != U or not ev.args:
+            continue
+        a_ = strip(ev.args[0])
+        facts = X.facts(f, ev)
+        ck.ob("C10.5-NULL-OK", f.site("header of a non-NULL block@%d" % ev.line), has(facts, S(a_)),
+              "get_header(%s) at line %d under %s%s" % (S(a_), ev.line, fmt_facts(facts), "" if has(facts, S(a_)) else
+              ": the block '%s' itself is not known to be non-NULL here — releasing a NULL pointer, which is documented as a no-op, reads "
+              "the byte before address 0" % S(a_)))
+
     ck.rule("C10.6-MEMHOOK", "R-WHO-CALLS: no direct malloc/calloc/realloc/free/strdup call anywhere in Lib/ (allocation goes through memhook; "
             "the only mention of the libc allocator is memhook's initialiser)", floor=1)
     direct = [ev for ev in P.calls_to({"malloc", "calloc", "realloc", "free", "strdup", "strndup"})]
@@ -189,6 +202,19 @@ def run(ck, P):
     # positive fixture for the zero-expected rule: memhook must resolve to the libc triple
     init = P.pointsto().pts.get(("global", "memhook"), set())
     ck.need({"malloc", "calloc", "free"} <= init, "memhook initialiser no longer names malloc/calloc/free (fixture for C10.6)")
+
+    # replacing the allocator is all-or-nothing: a refused m_set_memhook leaves the old triple in place (a half-replaced triple allocates
+    # with one allocator and frees with another)
+    smh = P.fn("m_set_memhook", required=False)
+    if smh is not None:
+        ck.analysed(smh)
+        stores = [e for e in smh.events() if e.kind == "assign" and S(e.lhs).startswith("memhook.")]
+        fails = [e for e in smh.events() if e.kind == "ret" and e.e is not None and (cval(e.e) or 0) != 0]
+        half = [(w, r) for w in stores for r in fails if rules.may_precede(smh, w, r)]
+        ck.ob("C10.6-MEMHOOK", smh.site("all-or-nothing"), len(stores) >= 3 and not half,
+              "m_set_memhook stores the %d hooks only after every argument check has passed" % len(stores) if not half else
+              "m_set_memhook stores %s at line %d and can still refuse the call at line %d: the call fails but part of the allocator triple is already "
+              "replaced (blocks are then allocated by one allocator and freed by another)" % (S(half[0][0].lhs), half[0][0].line, half[0][1].line))
 
     ck.extra["checker_cmd"] = "python3 engine/check.py C10 --tier %s   (engine/absint.py over `clang-14 -O1 -Xclang -disable-llvm-passes -S -emit-llvm` + `opt-14 -passes=function(mem2reg,simplifycfg)` of %s)" % (ck.tier, U)
     ck.extra["trusted_base"] = ["clang 14 lowering to LLVM IR and opt-14 mem2reg/simplifycfg", "engine/absint.py transfer functions (affine forms a*K+b, K>=0)",
